@@ -9,15 +9,30 @@
   pending sets of the post-state (`hframe` of `inv_step_stable`, `hcov` of `tagjob_publish_sound`).  C06Reach
   discharges those from the model: for EVERY history of events (API calls and job completions in any order)
   from the initial state, `C06.Inv` holds in every state reached, under hypotheses that speak only about
-   (a) the event payloads: `PayloadOK` (MgrReach), `ImportAddsNew` (ADDED), the search-result contract
-       `ResultOK`, and
+   (a) the event payloads: `PayloadOK` (MgrReach), `ImportAddsNew` (ADDED: a contract on the builder's
+       result), `EvFeatOK` (ADDED: a clause of the facts contract — a definition that references a tag reports
+       the feature bit `FeatureFilterTags`), the search-result contract `ResultOK`, and
    (b) how the ground truth may move from one state to the next: the frame contract `TruthStep`
        (per dependency class of the definitions, closed under tag references: `Dep`),
-  plus two narrow side conditions that exclude scenarios on which the model itself publishes a stale answer
-  (`JobTextOK`, `MarkRefOK`, both ADDED, with the scenarios — evaluated on the executable model — in their
-  comments).  None of them mentions a pending set or a match set of a post-state; `TruthStep` mentions the
-  match set of the PRE-state in the two mark clauses (the real system computes the new definition text of a
-  mark tag from it) and the result code of the call (a rejected call changes nothing).
+  plus ONE narrow side condition, `JobTextOK` (ADDED), which is an artefact of indexing the abstract truth by
+  tag names rather than by definition texts (it constrains `updQuery` of the job's tag back to the text of the
+  snapshot, and mark updates of the job's tag that leave that text in place).  None of them mentions a pending
+  set or a match set of a post-state; `TruthStep` mentions the match set of the PRE-state in the two mark clauses
+  (the real system computes the new definition text of a mark tag from it) and the result code of the call (a
+  rejected call changes nothing).
+
+  Second version (after two fixes of the Go service that this development triggered; the model was patched
+  accordingly):
+   * every tag carries the identity `gen` of the `AddTag` call that created it, and the tagging completion
+     publishes only onto the same incarnation: the delete/re-create clause of `JobTextOK` and its
+     counterexample are gone (the trace is now proved safe: `aba_now_safe`, `aba_decided_correct`); the state
+     invariants `GenInv` (identities below the counter, pairwise different) and the job invariant `JobInv`
+     follow the incarnation by its identity, also through renames;
+   * `MarkRefOK` is no longer a hypothesis: it follows from the state invariant `TagFeatInv`, which is preserved
+     under the facts clause `EvFeatOK` (`tagFeat_step`, `markRefOK_of_feat`); `featRefOK_counterexample` shows
+     the clause is needed;
+   * a converter completion makes tags with data-dependent SUB-QUERY features pending on every stream; `ConvBase`
+     now says what it should.
 
   The frame contract bounds the set of (tag, stream) pairs whose truth changes by the CLOSURE of a base set
   under tag references (`Dep`, a least fixed point).  This is weaker than the one-step form "n changes only
@@ -29,20 +44,20 @@
   invariant that discharges `hcov` of `C06.tagjob_publish_sound` at the completion: every stream on which
   the answer the completion is going to publish (`Ans`) differs from the current truth is recorded in the
   during-job masks `upd`/`rst`/`add` in a way that makes it pending again after the completion (`Cov`), as long
-  as the tag still carries the definition text of the snapshot (otherwise the completion discards the result).
+  as the incarnation the job was started for still carries the definition text of the snapshot (otherwise the
+  completion discards the result).
 
-  Observations made on the way (not needed as hypotheses, reported for the record):
-   * an import completion with created files but EMPTY `upd`/`rst`/`add` makes tags with sub-query features
-     pending everywhere but leaves the during-job masks empty, so a running job for a tag that references such
-     a tag publishes with `unc = []` while its reference is pending; the frame contract therefore lets the
-     truth of sub-query tags change at an import only if the import reports some stream (`ImportBase`);
-   * a converter completion makes a tag with data-dependent SUB-QUERY features pending on the reported streams
-     only (not everywhere); `ConvBase` is what the model supports, the real system has to justify it.
+  Observation made on the way (not needed as a hypothesis, reported for the record): an import completion with
+  created files but EMPTY `upd`/`rst`/`add` makes tags with sub-query features pending everywhere but leaves
+  the during-job masks empty, so a running job for a tag that references such a tag publishes with `unc = []`
+  while its reference is pending; the frame contract therefore lets the truth of sub-query tags change at an
+  import only if the import reports some stream (`ImportBase`).
 -/
 import Pk.Props.C06
 import Pk.Props.MgrReach
 import Pk.Props.C09Settles
 import Pk.Proofs.MgrTruthDep
+import Pk.Proofs.MgrTruthFrame
 
 namespace Pk.Props.C06Reach
 open Pk.Mgr Pk.Props.MgrReach Pk.Proofs.MgrTruth Pk.Proofs.MgrTags
@@ -56,8 +71,6 @@ abbrev Truth := String → Nat → Bool
 def F254 (t : Tag) : Prop := t.mfeat &&& (255 - fID) ≠ 0
 /-- the definition looks at data or times -/
 def FDT (t : Tag) : Prop := t.mfeat &&& (fData ||| fTimeAbs ||| fTimeRel) ≠ 0
-/-- the definition looks at stream data (main query or sub-query) -/
-def FDataDep (t : Tag) : Prop := ¬ (t.mfeat &&& fData = 0 ∧ t.sfeat &&& fData = 0)
 
 /-! ## the frame contract -/
 
@@ -83,10 +96,13 @@ def ImportBase (s : St) (upd rst add : List Nat) (n : String) (id : Nat) : Prop 
      -- an updated stream (more packets of the same connection): data and times
      (id ∈ upd ∧ FDT t))
 
-/-- what a converter completion may change directly: data-dependent definitions, on the streams the
-    completion reports for a converter that is still configured -/
+/-- what a converter completion may change directly, for a converter that is still configured: a definition
+    whose MAIN query looks at stream data, on the streams the completion reports; a definition whose
+    SUB-QUERY looks at stream data, on ANY stream as soon as the completion reports a non-empty set (the stream
+    whose answer changes need not be the converted one) -- CHANGED (conv) -/
 def ConvBase (s : St) (sets : List (String × IdSet)) (n : String) (id : Nat) : Prop :=
-  ∃ t, sget s.tags n = some t ∧ FDataDep t ∧ ∃ p, p ∈ sets ∧ p.1 ∈ s.convs ∧ id ∈ p.2
+  ∃ t, sget s.tags n = some t ∧ ∃ p, p ∈ sets ∧ p.1 ∈ s.convs ∧
+    ((t.mfeat &&& fData ≠ 0 ∧ id ∈ p.2) ∨ (t.sfeat &&& fData ≠ 0 ∧ p.2 ≠ []))
 
 /-- how the truth may change at event `e` taken in state `s` (`T` before, `T'` after) -/
 def TruthStep (s : St) (e : Ev) (T T' : Truth) : Prop :=
@@ -151,45 +167,83 @@ def ResultOK (s : St) (e : Ev) (g : Truth) : Prop :=
     ∀ snap held, s.jTag = some (name, snap, held) → ∀ id, id ∈ result ↔ (id ∈ snap.unc ∧ g name id = true)
   | _ => True
 
-/-- the table still holds, under the job's name, a tag with the definition text of the snapshot -/
-def Live (s : St) (jn : String) (snap : Tag) : Prop := ∃ ot, sget s.tags jn = some ot ∧ ot.defn = snap.defn
+/-! ### the facts contract on tag references (ADDED) -/
 
--- ADDED: the completion of a tagging job publishes its result iff the tag of that name carries the
--- definition TEXT of the snapshot.  The abstract truth is indexed by tag names, not by texts, so an edit
--- that removes the tag and later puts the same text back under the same name ("resurrection") is not
--- visible to the completion.  On the model this is a real stale answer when a referenced tag was replaced
--- meanwhile: tags mark/m = "id:0" and tag/x = "tag:m" (mainT = [mark/m], mfeat = 0), x's job in flight;
--- `delTag tag/x`, `delTag mark/m`, `addTag mark/m "id:1"`, `addTag tag/x "tag:m"`; the completion
--- publishes the answers computed from the old mark/m with `unc = []` (formal: `jobTextOK_counterexample`,
--- Pk/Proofs/MgrTruthCex3.lean).  Excluded here:
---  * an edit of the job's tag other than `updQuery` that leaves the snapshot's text under the job's name
---    was a no-op for that tag (it had the text before and its truth did not change);
---  * `updQuery` with the text of the snapshot records `rst = all streams`, which covers everything
---    provided the definition looks at more than ids (or has sub-query features).
-/-- edits of the tag of the job in flight do not resurrect the snapshot's definition text -/
-def JobTextOK (s : St) (e : Ev) (st : Started) (T T' : Truth) : Prop :=
-  ∀ jn snap held, s.jTag = some (jn, snap, held) →
-    match e with
-    | .tagDone _ _ => True
-    | .updQuery name d _ =>
-      name = jn → d = snap.defn → (step s e st).2 = Res.ok → (F254 snap ∨ snap.sfeat ≠ 0)
-    | _ => C06.Edits e jn → Live (step s e st).1 jn snap →
-        Live s jn snap ∧ ∀ id, id < s.next → T' jn id = T jn id
+/-- `query.FeatureFilterTags`: the feature bit `query.Features()` sets for every tag condition -/
+def fTags : Nat := 64
 
--- ADDED: a mark update records the touched streams in the during-job mask `rst` and restores the mark
--- tag's own pending set afterwards.  At the completion of a job for a tag that references the mark tag
--- DIRECTLY, `rst` is applied only if the definition looks at more than ids (sub-query reference: only if
--- it has sub-query features).  On the model: mark/m = "id:0", tag/x with mainT = [mark/m], mfeat = 0,
--- x's job in flight with result [0]; `markDel mark/m [0]`; `tagDone tag/x [0]` leaves x with mat = [0],
--- unc = [] although stream 0 is no longer in mark/m (formal: `markRefOK_counterexample`,
--- Pk/Proofs/MgrTruthCex2.lean).
-/-- a tag whose job is in flight and that references a mark tag directly is subject to `rst` -/
+-- ADDED: a definition that references a tag in its main query reports the feature bit `FeatureFilterTags` in
+-- its main features, one that references a tag in a sub-query reports it in its sub-query features.  This
+-- is what makes the during-job mask `rst` effective for referrers: a mark update records the touched
+-- streams in `rst` and restores the mark tag's own pending set afterwards; at the completion of a job for
+-- a tag that references the mark tag DIRECTLY, `rst` is applied only if the definition looks at more than
+-- ids (sub-query reference: only if it has sub-query features).  On the model, with facts that violate the
+-- clause: mark/m = "id:0", tag/x with mainT = [mark/m], mfeat = 0, x's job in flight with result [0];
+-- `markDel mark/m [0]`; `tagDone tag/x [0]` leaves x with mat = [0], unc = [] although stream 0 is no longer
+-- in mark/m (formal: `featRefOK_counterexample`, Pk/Proofs/MgrTruthCex2.lean).
+/-- the parser facts report the tag-reference feature -/
+def FeatRefOK (f : Facts) : Prop :=
+  (f.main ≠ [] → f.mfeat &&& fTags ≠ 0) ∧ (f.sub ≠ [] → f.sfeat &&& fTags ≠ 0)
+
+/-- the facts contract on the events that carry parser facts -/
+def EvFeatOK : Ev → Prop
+  | .addTag _ _ _ f => FeatRefOK f
+  | .updQuery _ _ f => FeatRefOK f
+  | _ => True
+
+/-- the same for a stored tag -/
+def TagFeat (t : Tag) : Prop :=
+  (t.mainT ≠ [] → t.mfeat &&& fTags ≠ 0) ∧ (t.subT ≠ [] → t.sfeat &&& fTags ≠ 0)
+
+/-- state invariant: every tag of the table and the snapshot of the job in flight carry the tag-reference
+    feature (preserved by `step` under `EvFeatOK`: `tagFeat_step`) -/
+def TagFeatInv (s : St) : Prop :=
+  (∀ n t, sget s.tags n = some t → TagFeat t) ∧
+  (∀ jn snap held, s.jTag = some (jn, snap, held) → TagFeat snap)
+
+/-- a tag whose job is in flight and that references a mark tag directly is subject to `rst` (no longer a
+    hypothesis: it follows from `TagFeatInv`, see `markRefOK_of_feat`) -/
 def MarkRefOK (s : St) (e : Ev) : Prop :=
   match e with
   | .markAdd name _ | .markDel name _ =>
-    ∀ jn snap held, s.jTag = some (jn, snap, held) → Live s jn snap →
+    ∀ jn snap held, s.jTag = some (jn, snap, held) →
       (name ∈ snap.mainT → F254 snap) ∧ (name ∈ snap.subT → snap.sfeat ≠ 0)
   | _ => True
+
+/-! ### the identity of tags -/
+
+/-- state invariant: the identities (`gen`, the number of the creating `AddTag` call) in use are below the
+    counter `ngen` — so a tag created later never has the identity of the snapshot of the job in flight — and
+    two different names never carry the same identity (preserved by `step`: `genInv_step`) -/
+def GenInv (s : St) : Prop :=
+  (∀ n t, sget s.tags n = some t → t.gen < s.ngen) ∧
+  (∀ jn snap held, s.jTag = some (jn, snap, held) → snap.gen < s.ngen) ∧
+  (∀ n1 t1 n2 t2, sget s.tags n1 = some t1 → sget s.tags n2 = some t2 → t1.gen = t2.gen → n1 = n2)
+
+-- The completion of a tagging job publishes its result iff the tag of that name carries the identity `gen`
+-- AND the definition TEXT of the snapshot.  The identity rules out deletion and re-creation (fix of the
+-- defect found as `jobTextOK_counterexample` in the first version of this file; the trace is now safe:
+-- `aba_now_safe`).  What the identity cannot rule out is an edit that puts the snapshot's TEXT back on the
+-- same incarnation; the abstract truth is indexed by names, not by texts, so two clauses remain:
+--  * `updQuery` (of the incarnation the job was started for) back to the text of the snapshot records
+--    `rst = all streams`, which covers everything provided the definition looks at more than ids or has
+--    sub-query features (for a definition that looks at ids only the old answers are in fact still right —
+--    same text, same id list — but the abstract truth does not know that);
+--  * a mark update on the incarnation the job was started for that leaves the snapshot's text in place was a
+--    no-op for that tag (it had the text before and its truth did not change).  (A mark update normally
+--    changes the text; the text stays only if no listed stream was new resp. recorded.)
+/-- ADDED: edits of the tag the job in flight was started for do not put the snapshot's definition text back -/
+def JobTextOK (s : St) (e : Ev) (st : Started) (T T' : Truth) : Prop :=
+  ∀ jn snap held, s.jTag = some (jn, snap, held) →
+    match e with
+    | .updQuery name d _ =>
+      ∀ t, sget s.tags name = some t → t.gen = snap.gen → d = snap.defn → (step s e st).2 = Res.ok →
+        (F254 snap ∨ snap.sfeat ≠ 0)
+    | .markAdd name _ | .markDel name _ =>
+      ∀ t, sget s.tags name = some t → t.gen = snap.gen →
+        (∃ t', sget (step s e st).1.tags name = some t' ∧ t'.defn = snap.defn) →
+        t.defn = snap.defn ∧ ∀ id, id < s.next → T' name id = T name id
+    | _ => True
 
 /-! ## the ghost and the job invariant -/
 
@@ -215,29 +269,32 @@ def Cov (s : St) (snap : Tag) (id : Nat) : Prop :=
 /-- the answer the completion is going to publish for stream `id` -/
 def Ans (snap : Tag) (g : Nat → Bool) (id : Nat) : Bool := if id ∈ snap.unc then g id else decide (id ∈ snap.mat)
 
-/-- while the tag of the job in flight carries the snapshot's text: every stream on which the answer to be
+/-- while the incarnation the job in flight was started for (the tag with the identity `gen` of the snapshot,
+    under whatever name it has now) carries the snapshot's text: every stream on which the answer to be
     published differs from the current truth is covered by the masks -/
 def JobInv (s : St) (T g : Truth) : Prop :=
-  ∀ jn snap held ot, s.jTag = some (jn, snap, held) → sget s.tags jn = some ot → ot.defn = snap.defn →
+  ∀ jn snap held n ot, s.jTag = some (jn, snap, held) → sget s.tags n = some ot → ot.gen = snap.gen →
+    ot.defn = snap.defn →
     (∀ id, id < s.next → CovM s snap id) ∨
-    (ot.mfeat = snap.mfeat ∧ ot.sfeat = snap.sfeat ∧
-      ∀ id, id < s.next → T jn id ≠ Ans snap (g jn) id → Cov s snap id)
+    (Attrs ot = Attrs snap ∧ ∀ id, id < s.next → T n id ≠ Ans snap (g jn) id → Cov s snap id)
 
 /-- everything that holds in every state of a run -/
 structure Good (s : St) (T g : Truth) : Prop where
   reach : Reach s
   acyclic : C09.Acyclic s
+  gens : GenInv s
+  feats : TagFeatInv s
   inv : C06.Inv s T
   job : JobInv s T g
 
 /-- the hypotheses on one event -/
 structure StepOK (s : St) (T g : Truth) (e : Ev) (st : Started) (T' : Truth) : Prop where
   payload : PayloadOK s e
-  addsNew : ImportAddsNew s e          -- ADDED
+  featOK : EvFeatOK e                  -- ADDED (facts contract)
+  addsNew : ImportAddsNew s e          -- ADDED (builder contract)
   truth : TruthStep s e T T'
   result : ResultOK s e g
   jobText : JobTextOK s e st T T'      -- ADDED
-  markRef : MarkRefOK s e              -- ADDED
 
 /-! ## histories -/
 
@@ -274,10 +331,10 @@ theorem inv_congr {s : St} {T T' : Truth} (h : C06.Inv s T) (hs : SameOn s T T')
   exact h n t ht id hid hnu
 
 theorem jobInv_congr {s : St} {T T' g : Truth} (h : JobInv s T g) (hs : SameOn s T T') : JobInv s T' g := by
-  intro jn snap held ot hj hot hd
-  rcases h jn snap held ot hj hot hd with h1 | ⟨h2, h3, h4⟩
+  intro jn snap held n ot hj hot hg hd
+  rcases h jn snap held n ot hj hot hg hd with h1 | ⟨h2, h4⟩
   · exact Or.inl h1
-  · refine Or.inr ⟨h2, h3, fun id hid hne => h4 id hid ?_⟩
-    rw [← hs jn ot hot id hid]; exact hne
+  · refine Or.inr ⟨h2, fun id hid hne => h4 id hid ?_⟩
+    rw [← hs n ot hot id hid]; exact hne
 
 end Pk.Props.C06Reach
